@@ -410,10 +410,19 @@ package shwap
 // request into the same value, so anything left over from a rejected response would be verified
 // together with the next, honest one: C06). (The stream itself, length-delimited protobuf, is A-CODEC.)
 
-//@ func (*NamespaceData).ReadFrom
-//@   property C18
-//@   trusted
+// (call-site view: the decoder writes its receiver only)
+//@ extern (*github.com/celestiaorg/celestia-node/share/shwap.NamespaceData).ReadFrom
 //@   modifies nd
+// Body view: the stream of rows is read to its clean end - the only thing that ends the loop successfully
+// is io.EOF *between* two rows; a stream cut inside a row, or a row that does not decode, is an error
+// (never a shorter list), and the receiver is replaced only on success, by exactly the rows read.
+//@ func (*NamespaceData).ReadFrom
+//@   property C18 C02
+//@   noframe
+//@   requires nd != nil
+//@   callpre errors.Is: $arg1 == io.EOF
+//@   checks result1 == nil ==> len(deref(nd)) == len(ndNew)
+//@   checks result1 != nil ==> deref(nd) == old(deref(nd))
 
 //@ func (*RangeNamespaceData).ReadFrom
 //@   property C18 C06
